@@ -69,9 +69,9 @@ Definition WInv (w : world) : Prop := forall k u, get w k = Some u -> msgs_below
 (** ---- finding classes ---------------------------------------------------------------- *)
 
 Inductive c01class :=
-| CDupLastResult    (* a position is answered from the result of a LATER attempt for the
+| CDupLastResult.   (* a position is answered from the result of a LATER attempt for the
                        same recipient string (map keyed by recipient) and the two differ *)
-| CNoBoundary.      (* root multipart/* without boundary: zero part rows, linked, 250 *)
+(* retired: CSingle554 (raven aeac4b2), CNoBoundary (raven f7e0490) *)
 
 Definition is_noboundary (sh : shape) : bool :=
   match sh with MultiNoBoundary => true | _ => false end.
@@ -85,7 +85,6 @@ Definition classify (w : world) (folder : str) (rs : list str) (p : parsed) (clk
   else
     let '(_, atts) := deliver_all w folder rs p clk 0 in
     if existsb (mismatch (results_of atts)) atts then Some CDupLastResult
-    else if is_noboundary (p_shape p) && existsb a_ok atts then Some CNoBoundary
     else None.
 
 (** ---- "an acceptable recipient is not refused" ------------------------------------- *)
